@@ -123,7 +123,7 @@ Lemma well_formed_run tm argv : well_formed (run tm argv) = true.
 Proof.
   unfold run. destruct (parse_total tm argv) as [[h E]|[c E]]; rewrite E.
   - destruct h; reflexivity.
-  - cbn [well_formed]. apply sel_eqb.
+  - cbn [well_formed]. rewrite sel_eqb. apply (parse_seed tm argv c E).
 Qed.
 Lemma run_meets_spec_all tm argv opts : spec tm argv opts (run tm argv) = true.
 Proof.
